@@ -40,6 +40,8 @@ def deep(n, leaf):
     return v
 
 
+from vlib import values2 as _v2  # noqa: E402
+NEAR += [_v2.Obj(a=1), _v2.Obj2(a=1), _v2.Obj(a=[1]), [_v2.Obj(a=1)]]      # same class NAME, other module: other values
 NEAR += [deep(40, 1), deep(40, 2), deep(40, {'a': 1, 'b': 2}), deep(33, Obj(a=1)), deep(33, Obj(a=2)), deep(60, 'x'), deep(60, 'y')]
 ALIASES = [('x', 'x args='), ('in.a', 'in.a.b'), ('q', 'q '), ('in.{p}', 'in.'), ('a, kwargs=[]', 'a'), ('é', 'e'), ('svc', 'svc#1')]
 
@@ -60,7 +62,7 @@ def rebuild(v, rng):
         for x in items:
             s.add(x)
         return s
-    if isinstance(v, (Obj, Obj2)):
+    if isinstance(v, (Obj, Obj2, _v2.Obj, _v2.Obj2)):
         o = type(v)()
         for k in reversed(list(v.__dict__)):
             o.__dict__[k] = rebuild(v.__dict__[k], rng)
@@ -90,7 +92,7 @@ def unshare(v):
         return tuple(unshare(x) for x in v)
     if isinstance(v, set):
         return set(unshare(x) for x in v)
-    if isinstance(v, (Obj, Obj2)):
+    if isinstance(v, (Obj, Obj2, _v2.Obj, _v2.Obj2)):
         o = type(v)()
         for k, x in v.__dict__.items():
             o.__dict__[k] = unshare(x)
@@ -103,7 +105,7 @@ def has_internal_aliasing(v):
     dup = [False]
 
     def walk(x):
-        if isinstance(x, (list, dict, set)) or isinstance(x, (Obj, Obj2)):
+        if isinstance(x, (list, dict, set)) or isinstance(x, (Obj, Obj2, _v2.Obj, _v2.Obj2)):
             if id(x) in seen:
                 dup[0] = True
                 return
@@ -114,7 +116,7 @@ def has_internal_aliasing(v):
         elif isinstance(x, (list, tuple, set)):
             for y in x:
                 walk(y)
-        elif isinstance(x, (Obj, Obj2)):
+        elif isinstance(x, (Obj, Obj2, _v2.Obj, _v2.Obj2)):
             walk(x.__dict__)
     walk(v)
     return dup[0]
